@@ -180,8 +180,8 @@ func (P *Prog) evalByte(t *Term) (byte, bool) {
 	}
 	if t.Op == "load" && t.Args[0].Op == "index" {
 		ix := t.Args[0]
-		if c, ok := termConstInt(ix.Args[1]); ok && ix.Args[0].Op == "load" && ix.Args[0].Args[0].Op == "global" {
-			if b, ok := P.globalBytes(ix.Args[0].Args[0].S); ok && int(c) < len(b) {
+		if c, ok := P.foldIntG(ix.Args[1]); ok && ix.Args[0].Op == "load" && ix.Args[0].Args[0].Op == "global" {
+			if b, ok := P.globalBytes(ix.Args[0].Args[0].S); ok && c >= 0 && int(c) < len(b) {
 				return b[c], true
 			}
 		}
@@ -207,6 +207,17 @@ func (P *Prog) prefixEstablished(fs factSet, data *Term, exp []byte) (bool, stri
 				return true, fmt.Sprintf("bytes.HasPrefix(input, % x)", bs)
 			}
 			why = fmt.Sprintf("prefix checked is % x, expected % x", bs, exp)
+		}
+	}
+	// a hand-written prefix predicate
+	for _, pr := range P.prefixFacts(fs) {
+		if pr[0].eq(data) {
+			if bs, ok := P.evalBytes(pr[1]); ok {
+				if string(bs) == string(exp) {
+					return true, fmt.Sprintf("prefix predicate established input starts with % x", bs)
+				}
+				why = fmt.Sprintf("prefix checked is % x, expected % x", bs, exp)
+			}
 		}
 	}
 	// byte-wise
